@@ -190,3 +190,42 @@ func runC04TextFlow(res *Result, drv *DriverPool, tier string, seed int64) {
 	})
 	res.Count(fmt.Sprintf("textflow-texts=%d", len(texts)))
 }
+
+// runC04TextVoid: normalizeVoidHTMLTags (verif export) against the Lean Model TextVoid.normalize (driver `textvoid`), byte for
+// byte, on fragments made of the pieces its pattern and the <br> trimming look at
+func runC04TextVoid(res *Result, drv *DriverPool, tier string, seed int64) {
+	pieces := []string{"<br/>", "<br />", "<br  \n/>", "<BR/>", "<Br class=\"x\"/>", "<br>", " <br> ", "<BR> ", " <BR>", "<brx/>", "<br-x/>", "<br_/>", "<br1/>", "<img src=\"a\"/>", "<img src=\"a\" />", "<IMG  alt='a/b'  />",
+		"<hr/>", "<hr\t/>", "<input disabled/>", "<link/>", "<linK/>", "<liNK rel=\"x\"/>", "<ſource/>", "<baſe/>", "<tracK/>", "<meta a=\"/>\"/>", "<col/>", "<colgroup/>", "<wbr/>", "<embed/>", "<param x/>", "<area/>",
+		"<source/>", "<track/>", "<base/>", "<b/>", "<div/>", "<p>", "</p>", "text", " ", "  ", "\n", "/>", "<", ">", "/", "<br", "<img", "< br/>", "<br/ >", "<img/ />", "<br //>", "é", "<a href=\"u\">", "</a>", "<!-- <br/> -->", "<br/><br/>", "x<br/> y"}
+	frags := []string{"", "<br/>", " <br/> ", "a <br /> b", "<BR/> x", "<br>", "<img/>", "<br", "<br/"}
+	n := 1500
+	if tier == "thorough" {
+		n = 40000
+	}
+	for i := 0; i < n; i++ {
+		r := NewRng(seed, fmt.Sprintf("c04/textvoid/%d", i))
+		var sb strings.Builder
+		for j, k := 0, 1+r.Intn(8); j < k; j++ {
+			sb.WriteString(r.Pick(pieces))
+		}
+		frags = append(frags, sb.String())
+	}
+	parallel(8, len(frags), func(i int) {
+		f := frags[i]
+		real := components.VerifNormalizeVoidHTMLTags(f)
+		resp, err := drv.Ask("textvoid " + hexOrDash(f))
+		res.Case("textvoid|"+f, real != f)
+		res.mu.Lock()
+		res.Programs++
+		res.DisagreementsChecked++
+		res.mu.Unlock()
+		if err != nil || strings.TrimSpace(resp) != hexOrDash(real) {
+			want, _ := hex.DecodeString(strings.TrimPrefix(strings.TrimSpace(resp), "-"))
+			at := firstDiff(real, string(want))
+			res.Disagree(Violation{Sig: "textvoid-model-mismatch", Kind: "input",
+				What:  fmt.Sprintf("normalizeVoidHTMLTags differs from the Model at offset %d: …%q… vs Model …%q…", at, around(real, at), around(string(want), at)),
+				Input: map[string]string{"fragment": f}})
+		}
+	})
+	res.Count(fmt.Sprintf("textvoid-fragments=%d", len(frags)))
+}
